@@ -47,6 +47,21 @@ def _qvar(prefix='q'):
     return z3.Int(f'{prefix}!{next(_counter)}')
 
 
+ARRAY_DEFS = 'axiom'    # 'lambda': list contents built by z3 Lambda; 'axiom': fresh array constant + defining axiom
+
+
+def defarray(st, var, body, prefix='arr'):
+    """The array  (lambda var. body).  In 'axiom' mode it is a fresh constant c with the definition
+    forall var. c[var] == body (trigger c[var]) added to the path condition: equivalent, but keeps z3
+    Lambda terms out of the heap, which the solver handles far better in the presence of quantified
+    invariants."""
+    if ARRAY_DEFS == 'lambda' or BOUND is not None or st is None:
+        return z3.Lambda([var], body)
+    c = fresh(prefix, z3.ArraySort(var.sort(), body.sort()))
+    st.assume(z3.ForAll([var], c[var] == body, patterns=[c[var]]))
+    return c
+
+
 def forall_int(lo, hi, fn, pattern=None):
     """forall i. lo <= i < hi -> fn(i)"""
     if BOUND is None:
@@ -369,6 +384,8 @@ def fresh_value(ty, prefix='v'):
         v = V(ty, items=[fresh_value(t, prefix) for t in ty.items])
     elif k == 'none':
         return vnone()
+    elif k == 'imap':
+        return V(ty, fresh(prefix, z3.ArraySort(I, I)))
     else:
         raise Unsupported(f'fresh of {ty}')
     if ty.opt:
